@@ -41,4 +41,4 @@ impl SampleGenerator<f64> for ZXBeeper {
 
 #[cfg(kani)]
 #[path = "/verif/hooks/core/beeper.rs"]
-mod verif_hooks;
+pub(crate) mod verif_hooks;
